@@ -1,13 +1,77 @@
 /-
-Oracle ops for the `iso` family.  Owned by the slice that models it; see AGENT_GUIDE.md.
+Oracle ops for the `iso` family (C18, call isolation).
+
+  iso hash <lo> <hi>           hex uint32 ×2      → hex of hash64(lo, hi)            (intern.go:58)
+  iso slot <hex>                                  → cache slot of the string, or `-` when it is not cached
+  iso intern <n> <h1> … <hn>   a history of makeString calls on one zero cache
+                                                  → the n strings returned (hex, `-` = empty)
+  iso seen <cycleAfter> <depth> <script>          → exit and size of the cycle set after marshaling
+        script: prefix notation  L0|L1|L2 (leaf ok/error/panic)  N <p> <k> followed by k children
 -/
 import JsonV.Oracle.Util
+import JsonV.Model.Intern
+import JsonV.Model.Reset
 
 namespace JsonV.Oracle.Iso
-open JsonV JsonV.Oracle
+open JsonV JsonV.Oracle JsonV.Model JsonV.Model.Reset
+
+def allSome {α} : List (Option α) → Option (List α)
+  | [] => some []
+  | none :: _ => none
+  | some x :: xs => (allSome xs).map (x :: ·)
+
+/-- Parse a GoVal script; fuel = number of tokens. -/
+def parseVal : Nat → List String → Option (GoVal × List String)
+  | 0, _ => none
+  | _, [] => none
+  | fuel + 1, t :: rest =>
+    if t == "L0" then some (.leaf .ok, rest)
+    else if t == "L1" then some (.leaf .error, rest)
+    else if t == "L2" then some (.leaf .panic, rest)
+    else if t == "N" then
+      match rest with
+      | p :: k :: rest2 =>
+        match p.toNat?, k.toNat? with
+        | some p, some k =>
+          let rec kids (n : Nat) (fuel : Nat) (ts : List String) (acc : List GoVal) : Option (List GoVal × List String) :=
+            match n with
+            | 0 => some (acc.reverse, ts)
+            | n + 1 =>
+              match parseVal fuel ts with
+              | some (v, ts') => kids n fuel ts' (v :: acc)
+              | none => none
+          match kids k fuel rest2 [] with
+          | some (ks, ts) => some (.node p ks, ts)
+          | none => none
+        | _, _ => none
+      | _ => none
+    else none
+
+def exitStr : MExit → String
+  | .ok => "ok" | .error => "error" | .panic => "panic" | .cycle => "cycle"
 
 def handle (op : String) (args : List String) : String :=
   match op, args with
+  | "hash", [lo, hi] =>
+    match natOfHex lo, natOfHex hi with
+    | some l, some h => hexOfNat (Intern.hash64 (BitVec.ofNat 32 l) (BitVec.ofNat 32 h)).toNat
+    | _, _ => badArgs
+  | "slot", [h] =>
+    match bytesOfHex h with
+    | some b => if Intern.cached b then toString (Intern.slot b).val else "-"
+    | none => badArgs
+  | "intern", n :: hs =>
+    match n.toNat?, allSome (hs.map bytesOfHex) with
+    | some n, some bs =>
+      if n != bs.length then badArgs
+      else " ".intercalate ((Intern.runAll Intern.Cache.empty bs).1.map hexOfBytes)
+    | _, _ => badArgs
+  | "seen", ca :: d :: script =>
+    match ca.toNat?, d.toNat?, parseVal (script.length + 1) script with
+    | some ca, some d, some (v, []) =>
+      let r := marshal ca d [] v
+      s!"{exitStr r.1} {r.2.length}"
+    | _, _, _ => badArgs
   | _, _ => "ERR unimplemented"
 
 end JsonV.Oracle.Iso
